@@ -194,6 +194,21 @@ func (cs complexShaperDefault) normalizationPreference() normalizationMode {
 	return nmDefault
 }
 
+// syllabicUnsafeToBreak flags the inside of every syllable as unsafe to break.
+// A syllable can end in the middle of a cluster: a grapheme like <consonant, CGJ, virama>
+// whose consonant closes the previous syllable, or <ZWNJ, mark> after a sign. Reordering
+// may then move the glyphs of the syllable into an earlier cluster (which drops their flags),
+// so the rest of that last cluster belongs to the window as well.
+func syllabicUnsafeToBreak(buffer *Buffer) {
+	iter, count := buffer.syllableIterator()
+	for start, end := iter.next(); start < count; start, end = iter.next() {
+		for end < count && buffer.Info[end].Cluster == buffer.Info[end-1].Cluster {
+			end++
+		}
+		buffer.unsafeToBreak(start, end)
+	}
+}
+
 func syllabicInsertDottedCircles(font *Font, buffer *Buffer, brokenSyllableType,
 	dottedcircleCategory uint8, rephaCategory, dottedCirclePosition int,
 ) bool {
